@@ -336,4 +336,9 @@ def monitors(T, prog, outcomes, evs, want):
                 for (u, ys, _) in subs:
                     if t <= u < s and ys and not set(ys) <= set(first[2]):
                         bad.append(('C08', 'burst-split', (u, ys, first)))
+                # "a single call": once that call has succeeded the burst is not offered again
+                if first[3]:
+                    again = next((c for c in calls if c is not first and set(xs) & set(c[2])), None)
+                    if again is not None:
+                        bad.append(('C08', 'burst-offered-twice', (t, xs, first, again)))
     return bad
